@@ -8,7 +8,8 @@ Decided on every CFG path of every push form (try_push x2, try_emplace, try_push
   C35.consumer   an element is moved out / destroyed only after an acquire load of tail_ showed it
                  present, each popped element is destroyed exactly once, and the release store of head_
                  that frees the slot follows on every path; head_ is stored nowhere else.
-  C35.dtor       the destructor destroys the elements still in [head, tail).
+  C35.dtor       the destructor destroys the elements still in [head, tail): a loop that destroys
+                 while head != tail (the cursors wrap: an ordering comparison is wrong).
 """
 import re
 from lib import dataflow
@@ -101,4 +102,26 @@ def run(R):
         n += 1
         ok = any(any(p.b in body and is_destroy(e) for p, e in fn.events()) for h, body, tails in natural_loops(fn))
         R.ob("C35.dtor", fn, fn.loc, ok, "remaining elements destroyed in a loop" if ok else "destructor leaves elements undestroyed", sitekey="dtor", why="every element is destroyed exactly once")
+        # the drain runs from the head cursor to the tail cursor; the cursors wrap, so "not there yet"
+        # is head != tail -- an ordering test skips everything when the tail has wrapped behind the head
+        from lib.rules import guard_comparisons, local_defs, field_name, lvalue_path
+        def derived_from(x, field, depth=3):
+            x = strip_casts(x)
+            if not isinstance(x, dict) or depth <= 0:
+                return False
+            if x.get("k") == "call" and "atomic" in x and (field_name(lvalue_path(F, fn, x.get("obj"))) or "") == field:
+                return True
+            if x.get("k") == "var":
+                return any(d[2] == "decl" and derived_from(d[1], field, depth - 1) for d in local_defs(fn, x.get("vid")))
+            return False
+        for dp, de in [(p, e) for p, e in fn.events() if is_destroy(e)]:
+            cmps = guard_comparisons(fn, dp, lambda x: derived_from(x, HEAD))
+            cmps = [c for c in cmps if derived_from(c[1], TAIL)]
+            n += 1
+            if not cmps:
+                R.inconclusive("C35.dtor", "the destructor's drain is not written as a walk from the head cursor to the tail cursor: no model for this shape")
+                continue
+            ok2 = all(c[0] == "!=" for c in cmps)
+            R.ob("C35.dtor", fn, de, ok2, "drain continues while head != tail" if ok2 else "drain continues while head %s tail: the cursors wrap, so leftover elements are skipped when the tail index is behind the head index" % cmps[0][0],
+                 sitekey="dtor:range", why="every element is destroyed exactly once")
     R.need("C35", n, 9, "SPSC slot access sites")
